@@ -125,7 +125,8 @@ def ssetInsert (x : Bytes) (l : List Bytes) : List Bytes := insertUniq Bytes.le 
 def nsetInsert (x : F64) : List F64 → List F64
   | [] => [x]
   | y :: ys => if F64.eq x y then x :: ys else if F64.le x y then x :: y :: ys else y :: nsetInsert x ys
-def bsetAdd (x : Bytes) (l : List Bytes) : List Bytes := if l.contains x then l else l ++ [x]
+/-- binary sets are kept in one canonical (sorted) order: `sortBinaries` after every construction and ADD -/
+def bsetAdd (x : Bytes) (l : List Bytes) : List Bytes := insertUniq Bytes.le (· == ·) x l
 
 /- `MapToObject`; `none` is the "value type is not supported yet" / ParseFloat error.
     Maps are kept sorted by key so that `Obj.beq` on maps is order-insensitive like
